@@ -210,7 +210,7 @@ def _normal_form_by_execution(ctx, ck, rules, map_only: bool = False) -> bool:
     of the given ones and it sits on the side with fewer elements.  Returns True when decided."""
     import itertools
 
-    from ..axinterp import AxArr, Env, Func, Interp, Obj, Opaque, Raised, Sym, Undecided, UNK
+    from ..axinterp import AxArr, Env, Func, Interp, Obj, Opaque, Raised, StructLeaf, Sym, Undecided, UNK
 
     world, table = ctx.world, ctx.table
     alg = table.get(f'{RULES}.AlgebraicReductionRule')
@@ -229,8 +229,8 @@ def _normal_form_by_execution(ctx, ck, rules, map_only: bool = False) -> bool:
     rules_mod = module_of(fn)
     reg_names = [n for n, d in rules_mod.defs.items() if isinstance(d, (ast.Assign, ast.AnnAssign)) and d.value is not None and 'Registry' in ast.unparse(d.value)]
     reg_cls = _registry_class(table, rules_mod) or reg_cls
-    small = AxArr(((frozenset({'s'}), 3),))
-    big = AxArr(((frozenset({'b'}), 7),))
+    small = StructLeaf(((frozenset({'s'}), 3),))
+    big = StructLeaf(((frozenset({'b'}), 7),))
     out_fn = base.own.get('out_structure')
 
     def struct_pairs(shape_kind):
@@ -401,6 +401,18 @@ def _normal_form_by_execution(ctx, ck, rules, map_only: bool = False) -> bool:
                     ([P1, tP1], []),
                     ([G0, P2, tP1, G1], None),
                 ]
+        # a scalar produced *during* the scan (a one-block row times a one-block column of scalar operators is their product):
+        # it must be merged with the scalars already there and moved to an end like any other, and the neighbours re-examined
+        row_cls, col_cls = table.find('furax._base.blocks.BlockRowOperator'), table.find('furax._base.blocks.BlockColumnOperator')
+        if row_cls is not None and col_cls is not None:
+            def one_block(cls_, h, name):
+                return Obj(cls_, {'blocks': [h], 'name': name})
+
+            cases += [
+                ([G0, one_block(row_cls, scal('k0'), 'Row[k0]'), one_block(col_cls, scal('k1'), 'Col[k1]'), G1], ('scalar-and', ['k0', 'k1'], [G0, G1])),
+                ([scal('k2'), G0, one_block(row_cls, scal('k0'), 'Row[k0]'), one_block(col_cls, scal('k1'), 'Col[k1]')], ('scalar-and', ['k0', 'k1', 'k2'], [G0])),
+                ([inv(A), one_block(row_cls, scal('k0'), 'Row[k0]'), one_block(col_cls, scal('k1'), 'Col[k1]'), A], ('scalar-and', ['k0', 'k1'], [])),
+            ]
         for chain, want in cases:
             it.steps = 0
             del it.degraded[:]
@@ -417,7 +429,19 @@ def _normal_form_by_execution(ctx, ck, rules, map_only: bool = False) -> bool:
             if it.degraded or not isinstance(res, list) or not all(isinstance(o, Obj) for o in res):
                 ck.incomplete('N8', fn, f'the reduction driver could not be executed abstractly on {text}: {(it.degraded or ["the result is not a list of operators"])[0]}', instance='normal form by execution')
                 return False
-            if want is None:
+            if isinstance(want, tuple) and want[0] == 'scalar-and':
+                hs_ = [o for o in res if o.cls is homo]
+                rest_ = [o for o in res if o.cls is not homo]
+                got_k = sorted(x for h in hs_ for x in flatten_product(h.attrs.get('value')))
+                if [id(o) for o in rest_] != [id(o) for o in want[2]]:
+                    problems.append(f'{text}: expected the operators {[o.attrs["name"] for o in want[2]]} besides the scalar, got {[o.attrs.get("name", o.cls.name) for o in rest_]} (a scalar produced by a rule must be moved out of the way and the neighbours examined again)')
+                elif len(hs_) != 1:
+                    problems.append(f'{text}: {len(hs_)} scalar factors are left')
+                elif got_k != sorted(want[1]):
+                    problems.append(f'{text}: the remaining scalar is the product of {got_k}, not of {sorted(want[1])}')
+                elif rest_ and res[0] is not hs_[0] and res[-1] is not hs_[0]:
+                    problems.append(f'{text}: the scalar produced during the scan is left in the middle of the chain: not on the side with fewer elements')
+            elif want is None:
                 if [id(o) for o in res] != [id(o) for o in chain]:
                     problems.append(f'{text}: nothing is reducible, yet the chain is changed')
             elif want == 'scalar-only':
